@@ -116,6 +116,13 @@ class CallMixin:
             fm = self.src.find_method(c, name)
             if fm is not None and fm[1] == c:
                 break
+        # a method of the very class whose function is being verified, defined in the source but unknown to the sidecars: a helper extracted by a
+        # refactoring.  Its body is real code, so it is verified in place (inlined) rather than giving up; the evidence lists it.
+        fm = self.src.find_method(cls, name)
+        own_cls = self.func_key.split(":")[-1].rsplit(".", 1)[0] if getattr(self, "func_key", None) and "." in self.func_key.split(":")[-1] else None
+        if fm is not None and own_cls is not None and fm[1] == own_cls and not is_property:
+            self.lib.use(f"helper {cls}.{name} has no contract: verified in place (inlined) in its caller")
+            return self.inline_call(fm, base, args, kwargs, st, node)
         raise Unsupported(f"call to {cls}.{name}: no contract and not marked inline", node, self.path)
 
     def pick_variant(self, variants, args, node):
